@@ -188,7 +188,7 @@ fn main() {
                 sum.program = s.program;
             }
             let mut v = serde_json::to_value(&sum).unwrap();
-            v["seq"] = serde_json::json!({"sequences": st.sequences, "not_enabled_blocking": st.skipped_blocking, "max_depth": st.max_depth});
+            v["seq"] = serde_json::json!({"sequences": st.sequences, "not_enabled_blocking": st.skipped_blocking, "max_depth": st.max_depth, "graph_states": st.graph_states, "graph_edges": st.graph_edges});
             writeln!(f, "{}", v).unwrap();
             writeln!(f, "{}", serde_json::json!({"shard_done": shard})).unwrap();
         }
